@@ -293,7 +293,7 @@ func runC14(c *hc.Ctx) error {
 	var buf bufferedCases
 	c.Sum.Rule = "tile matrix sets = the built-in documents and synthetic exact quadtrees (tile width 1/256/512, both corners, first id 0 or 2); unperturbed (all id lists incl. the real binary for the built-in sets) and with every single-field perturbation (matrix width/height, tile width/height, origin by 1 ulp / 1e-9 / 1 unit, corner, cell size at ratios {1, 1.98, 1.99 -/+ 1ulp, 1.9900001, 2 -/+ 1e-9, 2.0099999, 2.01 -/+ 1 ulp, 2.02, 3} to BOTH neighbours, zero and negative, deletion, variable widths incl. the empty non-nil slice, id strings) at the first, second, a random, the last-but-one and the last level (thorough: every level), plus random pairs of perturbations; distinct = distinct (set, perturbations, ids); non-trivial = perturbed or accepted"
 	c.Sum.Oracle = "on the implementation (pointindex.IsQuadTree, DeviationStats, the texel binary; panics recovered): accepted => the quadtree conditions recomputed from the struct with exact rationals hold (ratio cases within 1e-12 of 1.99/2.01 make no claim); a perturbation breaking exactly one condition of an accepted set => rejected with an error; never a panic; for accepted unperturbed sets with a 1x1 root the pixel size reported by DeviationStats (int64 reso) equals cellSize(z)/16 within 1e-7 relative (built-in documents halve only to ~3e-8) resp. exactly to 1e-10 units (synthetic); the binary's verdict equals the library composite"
-	c.Sum.Partial = "validate_total carries the hypotheses under which the code as it stands does not panic; outside them C14_refuted_validate_total (known finding F8: requested ids not checked)"
+	c.Sum.Partial = "validate_total carries the hypotheses under which the code as it stands does not panic; outside them C14_refuted_validate_total (known finding F12: requested ids not checked)"
 	c.Sum.TrustedBase = []string{
 		"float64 division and comparison in IsQuadTree modelled bit-exactly through f64 (round to nearest even of the exact quotient of the two binary64 values)",
 		"uint(math.Log2(float64(tileWidth))) modelled as floor(log2) (exact for tile widths below 2^47); uint(-Inf) = 2^63 and 1<<n = 0 for n >= 64 as compiled for amd64",
@@ -367,8 +367,8 @@ func runC14(c *hc.Ctx) error {
 		if qc == "panic" || vc == "panic" {
 			kf, what := "", "validation panics"
 			if qc != "panic" && (len(ids) == 0 || strings.Contains(vm, "divide by zero")) {
-				kf = "F8"
-				what = "validateTileMatrixSet does not check the requested tile matrix ids: an empty list panics in slices.Max, a deepest id with level >= 64 (or a negative one) panics with an integer division by zero in FromTileMatrixSet (F8)"
+				kf = "F12"
+				what = "validateTileMatrixSet does not check the requested tile matrix ids: an empty list panics in slices.Max, a deepest id with level >= 64 (or a negative one) panics with an integer division by zero in FromTileMatrixSet (F12)"
 			}
 			vs.add(hc.Violation{What: what, KnownFinding: kf, Input: in, Observed: "IsQuadTree: " + qc + " " + qm + "; validate: " + vc + " " + vm, Expected: "an error or acceptance"})
 		}
@@ -416,8 +416,8 @@ func runC14(c *hc.Ctx) error {
 			if bc == "panic" {
 				kf, what := "", "texel panics while validating the tile matrix set"
 				if len(ids) == 0 || strings.Contains(bm, "divide by zero") {
-					kf = "F8"
-					what = "validateTileMatrixSet does not check the requested tile matrix ids: an empty list panics in slices.Max, a deepest id with level >= 64 (or a negative one) panics with an integer division by zero in FromTileMatrixSet (F8)"
+					kf = "F12"
+					what = "validateTileMatrixSet does not check the requested tile matrix ids: an empty list panics in slices.Max, a deepest id with level >= 64 (or a negative one) panics with an integer division by zero in FromTileMatrixSet (F12)"
 				}
 				vs.add(hc.Violation{What: what, KnownFinding: kf, Input: in, Observed: bm, Expected: "an error"})
 			}
@@ -452,7 +452,7 @@ func runC14(c *hc.Ctx) error {
 			}
 		}
 	}
-	// 2. ids that are not tile matrices of the set (F8 probes), library and binary
+	// 2. ids that are not tile matrices of the set (F12 probes), library and binary
 	for _, b := range bases {
 		if b.name != "WebMercatorQuad" && b.name != "NetherlandsRDNewQuad" {
 			continue
